@@ -393,7 +393,7 @@ def atomicity_schedule(dc, sc, res, rng, label):
         base_ix[k] = init[k]
     n = rng.randrange(2, 4)
     objs = [base_ix if shared else dc.Index.fromcache(dc.Cache(d, timeout=0)) for _ in range(n)]
-    sch = Sched(rng, clock, strategy=rng.choice(['random', 'preempt', 'random']),
+    sch = Sched(rng, clock, strategy=rng.choice(['random', 'preempt', 'random', 'ops']),
                 preempt_points={rng.randrange(0, 150) for _ in range(3)})
     rec = Recorder(sch)
 
